@@ -9,6 +9,7 @@ CONSTANT RoleMenu <- RMs
 CONSTANT DocMenu <- DMs
 CONSTANT Lims <- L012
 CONSTANT MaxSteps = 12
+CONSTANT Thin = 1
 CONSTANT PageGap = TRUE
 SPECIFICATION SimSpec
 INVARIANT SimExport
